@@ -43,6 +43,7 @@ def _case(draw):
     temps = [[draw(st.integers(0, nparts - 1)), draw(st.integers(0, total - 1)), draw(st.integers(0, total - 1)), draw(st.sampled_from([1, -1, 2, 0.5])),
               draw(st.integers(0, 3)), draw(st.integers(0, 1))] for _ in range(draw(st.sampled_from([0, 0, 1, 2])))]
     return {"ds": ds, "npts": npts, "combos": combos, "calls1": calls1, "calls2": calls2, "temps": temps,
+            "ctor": [draw(st.sampled_from([False, False, True])) for _ in ds],
             "second_solve": draw(st.booleans()), "vseed": draw(st.integers(0, 10 ** 6)), "zero_grad": draw(st.booleans())}
 
 
@@ -92,7 +93,10 @@ def check_case(case, ctx):
     rng = np.random.RandomState(case["vseed"])
     with prog.quiet():
         pep = PEP()
-        parts = [pep.declare_block_partition(d=d) for d in case["ds"]]
+        from PEPit import BlockPartition
+        # both documented ways of creating a partition: through the problem, or with the class constructor
+        parts = [(BlockPartition(d=d) if (case.get("ctor") or [])[k:k + 1] == [True] else pep.declare_block_partition(d=d))
+                 for k, d in enumerate(case["ds"])]
         f = pep.declare_function(SmoothConvexFunction, L=1.0)
         X = [pep.set_initial_point() for _ in range(case["npts"])]
         for i, j, w in case["combos"]:
